@@ -11,7 +11,7 @@ CFG = {
          'cases = every ordered tree shape of 1..6 nodes (thorough 1..8) x 4 decoration schemes + structured random trees of 1..60 nodes '
          '(deep / wide mix, empty ids 1 in 5, empty infos 1 in 4, empty label texts 1 in 8, nil labels below the root 1 in 7, leaf values nil / small / '
          'extreme ints / bools / strings, leaf values on inner nodes, texts containing "#", "-", ">", "*", "=", spaces and newlines) + a chain of 120 (400) nodes, stars with '
-         'fan-out 9, 10, 11, 99, 100, 101, 300 (1000), a comb. A case is non-trivial when the tree has more than one node (String: always); '
+         'fan-out 9, 10, 11, 99, 100, 101, 300 (1000), a comb, ids and label texts of 55..250 bytes (indents beyond 64, 128 and 256 columns; 1 random text in 40 is 50..140 bytes long). A case is non-trivial when the tree has more than one node (String: always); '
          'shape key = (operation, size class, depth class, fan-out class, nil label / empty id / empty label / inner leaf present, set of leaf value kinds, root as nil); '
          'distinct = distinct (op,args)',
  'explanation': 'tree is covered by no record of properties.jsonl; the statement checked is docs/extra-packages.md X02',
